@@ -30,6 +30,7 @@
 #include "shm_sched.h"
 
 #include <cstdlib>
+#include <deque>
 
 namespace shm {
 
@@ -122,6 +123,7 @@ public:
             if (s_->violated()) return;
             const char op = ops[i][0];
             const unsigned arg = static_cast<unsigned>(atoi(ops[i].c_str() + 1));
+            s_->trace("invoke %s", ops[i].c_str());
             switch (op) {
             case 'W': opWrite(t, static_cast<int>(arg % keyPos_.size())); break;
             case 'a': opAppend(t); break;
@@ -142,6 +144,7 @@ public:
             case 'g': opUpdate(t, static_cast<int>(arg % keyPos_.size()), false); break;
             default: break;
             }
+            s_->trace("return %s", ops[i].c_str());
         }
     }
 
@@ -211,6 +214,7 @@ public:
         vsim::probe("c55.slices_freed");
         if (sliceId < 0 || sliceId >= n_) { s_->viol("cleaner-bad-slice", "cleaner told about slice %d of %d", sliceId, n_); return; }
         Tag &tag = tags_[static_cast<size_t>(sliceId)];
+        s_->trace("cleaner: slice %d (created by version %d as #%d) freed", sliceId, tag.ver, tag.seq);
         if (!tag.inUse) {
             s_->viol("slice-freed-twice", "slice %d handed to the cleaner although it is not part of any chain (last used by version %d)", sliceId, tag.ver);
             return;
@@ -345,6 +349,7 @@ private:
         a->basics.timestamp = ver; // the version tag travels in a lock-protected plain field of the anchor
         st.w = WriteSession();
         st.w.active = true; st.w.ver = ver; st.w.fileno = fileno; st.w.anchor = a;
+        s_->trace("exclusive anchor %d: new version %d for key %d (previous version there: %d)", fileno, ver, key, prev);
     }
 
     void opWrite(int t, int j) {
@@ -466,6 +471,7 @@ private:
         const int ver = judgeOpen(a, j, t0, "openForReading");
         if (ver <= 0) return;
         if (vers_[static_cast<size_t>(ver)].state == Appending) vsim::probe("c55.read_open_of_appending_entry");
+        s_->trace("read-opened anchor %d: version %d of key %d", fileno, ver, j);
         ReadSession &r = st.r[slot];
         r = ReadSession();
         r.active = true; r.ver = ver; r.fileno = fileno; r.anchor = a;
@@ -511,7 +517,7 @@ private:
             return;
         }
         const Tag &tag = tags_[static_cast<size_t>(sid)];
-        const Link &l = v.chain[r.pos];
+        const Link l = v.chain[r.pos]; // by value: the writer may grow the vector while we yield
         if (!tag.inUse || tag.ver != l.tagVer || tag.seq != l.tagSeq) {
             s_->viol("reader-saw-changed-slice", "reader of version %d (key %d): slice %d at position %zu now carries tag (%d,%d,%s) instead of (%d,%d)", r.ver,
                      v.key, sid, r.pos, tag.ver, tag.seq, tag.inUse ? "used" : "free", l.tagVer, l.tagSeq);
@@ -528,6 +534,7 @@ private:
         r.lastSid = sid;
         ++r.pos;
         vsim::probe("c55.slices_visited");
+        s_->trace("reader of version %d visited slice %d at position %zu", r.ver, sid, r.pos - 1);
     }
 
     void opVisit(int t, bool newest) {
@@ -607,6 +614,7 @@ private:
             return;
         }
         ++vers_[static_cast<size_t>(stale)].readers;
+        s_->trace("update: stale version %d at anchor %d, fresh anchor %d", stale, update.stale.fileNo, update.fresh.fileNo);
         // fresh side: a keyless exclusive anchor
         becomeWriter(st, update.fresh.anchor, update.fresh.fileNo, j);
         if (s_->violated()) return;
@@ -684,7 +692,7 @@ private:
     Ipc::Mem::PageStack *ps_ = nullptr;
     std::vector<Tag> tags_;
     std::vector<int> curVer_;            ///< latest version created at each anchor position
-    std::vector<Version> vers_;
+    std::deque<Version> vers_;   // deque: references stay valid across push_back (tasks yield while holding them)
     std::vector<int> writeOpensInFlight_;
     int wildWriteOpens_ = 0;
     uint64_t tick_ = 1;                  ///< harness event counter (orders invocations and returns exactly)
